@@ -76,6 +76,32 @@ def run(ctx, tier):
                           first_result=want[:300], replayed_result=got[:300], preceded_by="common.%s(%r)" % (hn, a[0]),
                           monitor="replay", case=None)
     ctx.hit("replay_after_helper_call", nint)
+    # phase 1d: the same calls with the arguments passed BY NAME (documented parameter names), in shuffled order
+    import inspect
+    nk = 0
+    sigs = {}
+    for i in order[:3000]:
+        fn, a, k, want = rec[i]
+        if not a:
+            continue
+        if id(fn) not in sigs:
+            try:
+                ps = list(inspect.signature(fn).parameters.values())
+                sigs[id(fn)] = [p_.name for p_ in ps] if all(p_.kind == p_.POSITIONAL_OR_KEYWORD for p_ in ps) else None
+            except (TypeError, ValueError):
+                sigs[id(fn)] = None
+        names = sigs[id(fn)]
+        if not names or len(a) > len(names) or set(names[:len(a)]) & set(k):
+            continue
+        kw = dict(zip(names, _copy(a)))
+        kw.update(_copy(k))
+        got = repr(probe.call(fn, **kw))
+        nk += 1
+        ctx.ev()
+        if got != want:
+            ctx.violation("result-differs-when-arguments-are-passed-by-name:" + _name(fn).split(".")[-1], function=_name(fn),
+                          kwargs=repr(kw)[:300], positional_result=want[:300], keyword_result=got[:300], monitor="replay", case=None)
+    ctx.hit("replay_keyword_calls", nk)
     # phase 1c: each call preceded by a few calls taken from the workloads of ALL properties (another decoder's early
     # return or exception path may leave a module-level setting behind)
     cpath = os.environ.get("PMV_CORPUS")
